@@ -141,6 +141,9 @@ for mut, what in [("skip_one", "IdIterator skipping only one removed id"), ("cle
 r = tlc("algo/DomCHK", "MCDomCHKNeg_sibling_shortcut.cfg", workers=6, timeout=300)
 expect("DomCHK mutant sibling_shortcut violates Inv: intersect returning the common parent also for equal fingers", any("Invariant Inv is violated" in e for e in r.errors), str(r.errors[:1]))
 
+r = tlc("algo/DomCHK", "MCDomCHKNeg_last_changed.cfg", workers=8, timeout=600)
+expect("DomCHK mutant last_changed violates Inv (N=5, <= 7 edges): the fixpoint flag reflecting only the last node of a sweep", any("Invariant Inv is violated" in e for e in r.errors), str(r.errors[:1]))
+
 bad = [r for r in results if not r["ok"]]
 os.makedirs(os.path.join(VERIF, "evidence"), exist_ok=True)
 json.dump({"tests": results, "failed": len(bad)}, open(os.path.join(VERIF, "evidence", "selftest.json"), "w"), indent=1)
